@@ -57,9 +57,10 @@ def add_time_variable(ifileo, key):
         tmpseconds = 0
     else:
         tmp = ('%06d' % ifileo.TSTEP)
-        htmp = tmp[:2]
-        mtmp = tmp[2:4]
-        stmp = tmp[4:]
+        # HHMMSS from the right: HH may have more than two digits
+        htmp = tmp[:-4]
+        mtmp = tmp[-4:-2]
+        stmp = tmp[-2:]
         tmpseconds = 3600 * int(htmp) + 60 * int(mtmp) + int(stmp)
 
     time_unit = "seconds since %s" % (rdate.strftime('%Y-%m-%d %H:%M:%S%z'),)
